@@ -147,6 +147,14 @@ RequestsBoundedByEdges ==
 CyclesRefused == Mode = "graph" /\ CycleCheck /\ Traversal.ok => TRUE
 
 -----------------------------------------------------------------------------
+\* C05 (delegated roles): a delegated role must be listed in the trusted snapshot and have exactly
+\* the version listed there; under consistent snapshots the version-prefixed file is requested.
+\* One case per combination (Mode "pins" of the harness; the model is this table).
+PinCases == {[depth |-> d, listed |-> l, pinned |-> p, file |-> f, cons |-> c] :
+               d \in 1..2, l \in BOOLEAN, p \in 1..2, f \in 1..2, c \in BOOLEAN}
+PinAccept(c) == c.listed /\ c.pinned = c.file
+EmitPins == edges = <<>> => PrintT(<<"REPLAY", ToJson([cases |-> {[c |-> x, accept |-> PinAccept(x)] : x \in PinCases}])>>)
+
 Emit == IF Mode = "tree"
         THEN PrintT(<<"REPLAY", ToJson([edges |-> edges, lists |-> lists, loadok |-> LoadOk,
                         find |-> [n \in Names |-> SpecFind(n)]])>>)
